@@ -2,6 +2,7 @@
 import g1
 
 PROPERTY = 'C05'
+THOROUGH_EXTRA = 150
 
 
 def _events(tier, count):
@@ -77,7 +78,7 @@ def subharnesses(tier):
 
 
 def budget(tier, name):
-    return 400.0 if tier == 'quick' else 1500.0
+    return 400.0 if tier == 'quick' else 600.0
 
 
 def harness(S, spec):
